@@ -3,7 +3,7 @@ from ..core import Report
 from . import c08
 from . import common as cm
 
-FAMILIES = ["exponential", "powerlaw", "peak", "sinusoid", "logistic", "histpeak", "unbinned"]
+FAMILIES = ["expoffset", "exponential", "powerlaw", "peak", "sinusoid", "logistic", "histpeak", "unbinned"]
 
 
 def constants(depth, families=FAMILIES):
